@@ -6,7 +6,7 @@
    kind "edit"  a warning of an actionable kind was acted on (unused variable / argument renamed, unused label
                 or pointless statement deleted) in the REAL model; both models were run by the real runtime with
                 the same inputs; nothing observable may differ.                                          *)
-EXTENDS BareLint, Json, IOUtils
+EXTENDS BareLint, Json, IOUtils, TreeEq
 Cases == JsonDeserialize(IOEnv.CASES)
 VARIABLES tid, verdict
 vars == <<tid, verdict>>
@@ -36,9 +36,9 @@ LintLaw ==
     ELSE <<"ACCEPT">>
 EditLaw ==
     IF C.base.status # C.edited.status THEN <<"REJECT", "edit-changes-the-outcome", <<C.warning, C.base.status, C.edited.status>>>>
-    ELSE IF C.base.ret # C.edited.ret THEN <<"REJECT", "edit-changes-the-result", <<C.warning, C.base.ret, C.edited.ret>>>>
-    ELSE IF C.base.log # C.edited.log THEN <<"REJECT", "edit-changes-the-output", C.warning>>
-    ELSE IF C.base.globals # C.edited.globals THEN <<"REJECT", "edit-changes-the-final-globals", <<C.warning, C.base.globals, C.edited.globals>>>>
+    ELSE IF ~TreeEq(C.base.ret, C.edited.ret) THEN <<"REJECT", "edit-changes-the-result", <<C.warning, C.base.ret, C.edited.ret>>>>
+    ELSE IF ~EventSeqEq(C.base.log, C.edited.log) THEN <<"REJECT", "edit-changes-the-output", C.warning>>
+    ELSE IF ~TreeMapEq(C.base.globals, C.edited.globals) THEN <<"REJECT", "edit-changes-the-final-globals", <<C.warning, C.base.globals, C.edited.globals>>>>
     ELSE <<"ACCEPT">>
 Law == IF C.kind = "lint" THEN LintLaw ELSE EditLaw
 Init == tid \in 1..Len(Cases) /\ verdict = "open"
